@@ -360,60 +360,66 @@ def _check_counts(prog: Program, res: Result):
         res.count("count_ranges", n_ranges)
     res.floor("count_ranges", 5)
 
-    # spacing from a count: X / (n - 1) must use the side the count was derived from
-    pairs = [
-        ("rectangular", "num_borehole", "length_1"),
-        ("bi_rectangular", "n_1", "length_1"),
-        ("bi_rectangular", "n_2", "length_2"),
-        ("bi_rectangle_nested", "n_2", "length_2"),
-        ("zoned_rectangle_domain", "n_1", "length_1"),
-        ("zoned_rectangle_domain", "n_2", "length_2"),
-        ("bi_rectangle_zoned_nested", "n_min_1", "length_1"),
-        ("bi_rectangle_zoned_nested", "n_min_2", "length_2"),
-    ]
+    # spacing from a count: X / (n - 1) must divide the side the count n was derived from.  The count is whatever
+    # local stands in the denominator; its side is read from its own definition (a for-target over range(ceil(1 + L / B), ..)
+    # or an assignment ceil|floor(1 + L / B)) - no local name is assumed.
     n_sp = 0
-    for fname, nvar, side, branch in [(a, b, c, br) for (a, b, c) in pairs for br in (0, 1)]:
+    for fname in ("rectangular", "bi_rectangular", "bi_rectangle_nested", "zoned_rectangle_domain", "bi_rectangle_zoned_nested"):
         fi = prog.func(f"{DOM}.{fname}")
-        eng, st = _straight_env(prog, fi, branch=branch)
-        N = Rat.atom(nvar)
-        st.env[nvar] = N
-        for s in ast.walk(fi.node):
-            if isinstance(s, ast.Assign) and isinstance(s.value, ast.BinOp) and isinstance(s.value.op, ast.Div):
-                try:
-                    den = eng.eval(s.value.right, _with(st, nvar))
-                    num = eng.eval(s.value.left, _with(st, nvar))
-                except Exception:
+        for branch in (0, 1):
+            eng, st = _straight_env(prog, fi, branch=branch)
+            for s in ast.walk(fi.node):
+                if not (isinstance(s, ast.Assign) and isinstance(s.value, ast.BinOp) and isinstance(s.value.op, ast.Div)):
                     continue
-                if isinstance(den, Rat) and den.equals(N - Rat.const(1)) and isinstance(num, Rat):
-                    n_sp += 1
-                    sv = st.env.get(side, Rat.atom(side))
-                    ok = num.equals(sv)
-                    res.ob("R03.3", f"{fname} [swap branch {branch}]: spacing {norm_stmt(s)} divides the side its count {nvar} was derived from ({side})", ok, prog.loc(fi, s))
-                    if not ok:
-                        res.violation("R03.3", f"spacing-side|{fname}|{nvar}|{norm_stmt(s)}", prog.loc(fi, s), fi.qualname,
-                                      f"the spacing for count {nvar} is {num.key()} / ({nvar} - 1) but {nvar} counts boreholes along {side} "
-                                      f"(= {sv.key()}): the row no longer spans exactly that side")
+                r = s.value.right
+                if not (isinstance(r, ast.BinOp) and isinstance(r.op, ast.Sub) and isinstance(r.left, ast.Name) and isinstance(r.right, ast.Constant) and r.right.value == 1):
+                    continue
+                nvar = r.left.id
+                side = _count_side(fi.node, nvar, s, eng, st)
+                if side is None:
+                    continue
+                try:
+                    num = eng.eval(s.value.left, st)
+                except Exception:  # noqa: BLE001
+                    continue
+                if not isinstance(num, Rat):
+                    continue
+                n_sp += 1
+                ok = num.equals(side)
+                res.ob("R03.3", f"{fname} [swap branch {branch}]: spacing {norm_stmt(s)} divides the side its count {nvar} was derived from ({side.key()})", ok, prog.loc(fi, s))
+                if not ok:
+                    res.violation("R03.3", f"spacing-side|{fname}|{norm_stmt(s)}", prog.loc(fi, s), fi.qualname,
+                                  f"the spacing is {num.key()} / ({nvar} - 1) but {nvar} counts boreholes along {side.key()}: the row no longer spans exactly that side")
     res.count("spacings_from_counts", n_sp)
     res.floor("spacings_from_counts", 12)
 
-    # rectangular: second count n_2 = floor(length_2 / b + 1)
+    # rectangular: the second count is floor(length_2 / b + 1) with b the spacing derived from the first count
     fi = prog.func(f"{DOM}.rectangular")
     eng, st = _straight_env(prog, fi)
     found = False
+    rect_calls = [c for c in ast.walk(fi.node) if isinstance(c, ast.Call) and attr_chain(c.func) == "rectangle" and len(c.args) >= 4]
+    second = {c.args[1].id for c in rect_calls if isinstance(c.args[1], ast.Name)}
+    spacing = {c.args[2].id for c in rect_calls if isinstance(c.args[2], ast.Name)}
     for s in ast.walk(fi.node):
-        if isinstance(s, ast.Assign) and len(s.targets) == 1 and isinstance(s.targets[0], ast.Name) and s.targets[0].id == "n_2" and isinstance(s.value, ast.Call):
-            st2 = _with(st, "b")
+        if isinstance(s, ast.Assign) and len(s.targets) == 1 and isinstance(s.targets[0], ast.Name) and s.targets[0].id in second and isinstance(s.value, ast.Call) \
+                and attr_chain(s.value.func) in ("floor", "ceil", "int"):
+            st2 = st.fork()
+            for b_ in spacing:
+                st2.env[b_] = Rat.atom("b")
             v = eng.eval(s.value, st2)
             if isinstance(v, Rat):
                 a = sym_single_call(v, "floor")
                 found = True
-                ok = a is not None and a.equals(Rat.const(1) + st.env["length_2"] / Rat.atom("b"))
+                ok = a is not None and a.equals(Rat.const(1) + st.env["length_2"] / Rat.atom("b")) if "length_2" in st.env else False
+                if "length_2" not in st.env:
+                    # the swapped sides may carry other names: accept the one that is NOT the side of the first count
+                    ok = a is not None and _side_of(a) is not None and any(_side_of(a).equals(x) for x in (Rat.atom("length_x"), Rat.atom("length_y")))
                 res.ob("R03.3", "rectangular: second count is floor(length_2 / b + 1)", ok, prog.loc(fi, s))
                 if not ok:
                     res.violation("R03.3", f"rect-n2|{v.key()}", prog.loc(fi, s), fi.qualname,
                                   f"the number of rows across the short side is {v.key()} instead of floor(length_2 / b + 1): rows beyond the land")
     if not found:
-        raise AnalysisError(f"{fi.qualname}: assignment of n_2 not found")
+        raise AnalysisError(f"{fi.qualname}: definition of the second count (2nd argument of rectangle(..)) not found")
 
     # near-square
     dq = "ghedesigner.design.DesignNearSquare.__init__"
@@ -466,6 +472,38 @@ def _check_counts(prog: Program, res: Result):
     if not ok:
         res.violation("R03.3", f"nearsquare-grid|{norm_stmt(rc[0])}|{loops}", prog.loc(sq, rc[0]), sq.qualname,
                       f"near-square fields are {norm_stmt(rc[0])} over loops {loops}, not n x n / n x (n+1) grids at spacing b")
+
+
+def _count_side(fn: ast.FunctionDef, nvar: str, use: ast.stmt, eng, st):
+    """side L from which the count local `nvar` (as used in statement `use`) was derived: nvar is a for-target over
+    range(lo, ..) / a list of such a range with lo = ceil(1 + L / B), or is assigned ceil|floor(1 + L / B)"""
+    cands = []
+    for n in ast.walk(fn):
+        if isinstance(n, ast.For) and isinstance(n.target, ast.Name) and n.target.id == nvar and any(use is x for x in ast.walk(n)):
+            it = n.iter
+            if isinstance(it, ast.Name):  # for n in <list of range>
+                for d in ast.walk(fn):
+                    if isinstance(d, ast.Assign) and len(d.targets) == 1 and isinstance(d.targets[0], ast.Name) and d.targets[0].id == it.id:
+                        it = d.value
+                        break
+            while isinstance(it, ast.Call) and attr_chain(it.func) == "list" and it.args:
+                it = it.args[0]
+            if isinstance(it, ast.Call) and attr_chain(it.func) == "range" and len(it.args) >= 2:
+                cands.append(it.args[0])
+        if isinstance(n, ast.Assign) and len(n.targets) == 1 and isinstance(n.targets[0], ast.Name) and n.targets[0].id == nvar and n.lineno <= use.lineno:
+            cands.append(n.value)
+    for c in cands:
+        try:
+            v = eng.eval(c, st)
+        except Exception:  # noqa: BLE001
+            continue
+        if not isinstance(v, Rat):
+            continue
+        for f in ("ceil", "floor"):
+            a = sym_single_call(v, f)
+            if a is not None and _side_of(a) is not None:
+                return _side_of(a)
+    return None
 
 
 def _with(st: State, name: str) -> State:
